@@ -116,7 +116,16 @@ fn main() {
     None => o.oracle("thread-state", true, serde_json::json!({"cases": 1})),
   }
   let mut rng = Rng::new(seed);
-  if !units::run(&unit, &ctx, &mut rng, &mut o) {
+  let ran = std::panic::catch_unwind(std::panic::AssertUnwindSafe(|| units::run(&unit, &ctx, &mut rng, &mut o)));
+  let ran = match ran {
+    Ok(r) => r,
+    Err(_) => {
+      let last = util::LAST_PANIC.lock().map(|g| g.clone()).unwrap_or_default();
+      eprintln!("harness unit {unit}: unguarded panic at {last}");
+      std::process::exit(101);
+    }
+  };
+  if !ran {
     eprintln!("unknown unit {unit}");
     std::process::exit(2);
   }
